@@ -497,7 +497,8 @@ def _subseg(s, lo, hi, ln):
         return s
     if isinstance(s, Atom):
         if is_sym(lo) or is_sym(hi):
-            raise Inconclusive("symbolic slice through a text atom")
+            # a symbolic cut through opaque text: the remainder is opaque bytes of that length
+            return Junk(("atomcut", s.key(), _tkey(lo), _tkey(hi)), _sub(hi, lo))
         c = to_concrete_atom(s)
         if c is not None:
             return c[lo:hi]
